@@ -2,11 +2,24 @@
 (* every history (depth-bounded) of commands over every module/verb, presence of fields, arrival prefix and face scope *)
 EXTENDS Mgmt
 CONSTANTS MaxDepth
-Cmds == [pfx : {"localhost", "localhop", "other"}, local : BOOLEAN, inface : {700},
-         mod : {"rib", "fib", "strategy-choice", "cs", "faces"}, verb : {"register", "unregister", "add-nexthop", "remove-nexthop", "set", "unset", "config", "update", "destroy", "bogus"},
-         hasParams : BOOLEAN, hasName : BOOLEAN, name : {<<"a">>}, faceId : {-1, 800, 9999}, cost : {-1, 5}, origin : {-1}, flags : {-1},
-         strat : {"ok", "bare"}, stratName : {"multicast"}, capacity : {-1, 5, -2}, mtu : {-1, 0, 100, 1500}]
-Init == routes = {} /\ nh = Empty /\ st = (<<>> :> "best-route") /\ cap = 1024 /\ faces = (700 :> 8800 @@ 800 :> 1500) /\ lh \in BOOLEAN /\ ev = [c |-> [pfx |-> "none", local |-> FALSE, mod |-> "", verb |-> ""], accepted |-> FALSE]
+A == <<"a">>
+AB == <<"a", "b">>
+Base(mod, verb) == [pfx |-> "localhost", local |-> TRUE, inface |-> 700, mod |-> mod, verb |-> verb, hasParams |-> TRUE, hasName |-> TRUE, name |-> A,
+                    faceId |-> -1, cost |-> -1, origin |-> -1, flags |-> -1, strat |-> "", stratName |-> "", capacity |-> -1, mtu |-> -1]
+\* how the command arrives: prefix x scope of the arrival face
+Entries == {<<"localhost", TRUE>>, <<"localhost", FALSE>>, <<"localhop", TRUE>>, <<"localhop", FALSE>>, <<"other", TRUE>>}
+Via(c, e) == [c EXCEPT !.pfx = e[1], !.local = e[2]]
+Rib == { [Base("rib", v) EXCEPT !.name = n, !.faceId = f, !.cost = k, !.flags = g, !.hasParams = hp, !.hasName = hn] :
+           v \in {"register", "unregister", "bogus"}, n \in {A, AB}, f \in {-1, 800, 9999}, k \in {-1, 5}, g \in {-1, 0}, hp \in BOOLEAN, hn \in BOOLEAN }
+Fib == { [Base("fib", v) EXCEPT !.name = n, !.faceId = f, !.cost = k, !.hasParams = hp] :
+           v \in {"add-nexthop", "remove-nexthop"}, n \in {A, AB}, f \in {-1, 800, 9999}, k \in {-1, 5}, hp \in BOOLEAN }
+Str == { [Base("strategy-choice", v) EXCEPT !.name = n, !.strat = s, !.stratName = IF s = "ok" THEN "multicast" ELSE "", !.hasName = hn] :
+           v \in {"set", "unset"}, n \in {<<>>, A}, s \in {"ok", "bare", "unknown", ""}, hn \in BOOLEAN }
+Cs == { [Base("cs", "config") EXCEPT !.hasName = FALSE, !.capacity = k, !.hasParams = hp] : k \in {-1, 5, -2}, hp \in BOOLEAN }
+Fac == { [Base("faces", v) EXCEPT !.hasName = FALSE, !.faceId = f, !.mtu = m] : v \in {"update", "destroy"}, f \in {-1, 800, 9999}, m \in {-1, 0, 100, 1500} }
+Cmds == { Via(c, e) : c \in Rib \cup Fib \cup Str \cup Cs \cup Fac, e \in Entries }
+Init == routes = {} /\ nh = Empty /\ st = (<<>> :> "best-route") /\ cap = 1024 /\ faces = (700 :> 8800 @@ 800 :> 1500) /\ lh \in BOOLEAN
+        /\ ev = [c |-> [pfx |-> "none", local |-> FALSE, mod |-> "", verb |-> ""], accepted |-> FALSE]
 Next == \E c \in Cmds : Command(c, Accepts(c))
 Spec == Init /\ [][Next]_vars
 Constr == TLCGet("level") <= MaxDepth
@@ -14,4 +27,6 @@ View == <<routes, nh, st, cap, faces, lh>>
 RootStrategy == <<>> \in DOMAIN st
 RoutesOnExistingFaces == \A r \in routes : r.face \in DOMAIN faces
 MtuSane == \A f \in DOMAIN faces : faces[f] >= 1
+\* every accepted command is one the statement authorises
+OnlyAuthorised == ev.accepted => Authorised(ev.c)
 ====
